@@ -77,6 +77,14 @@ def selector_arg(sel, plate):
     raise HarnessError(f"selector {sel!r}")
 
 
+def slice_of(plate, sel):
+    """plate[...] for a selector spec, incl. a slice of a slice."""
+    if sel['k'] == 'sub':
+        (a, b), (c0, c1) = sel['sub']
+        return plate[selector_arg(sel['base'], plate)][slice(a, b), slice(c0, c1)]
+    return plate[selector_arg(sel, plate)]
+
+
 class Bench:
     def __init__(self, rep, subs, known=None, cache_policy='never', obs=True):
         self.rep = rep
@@ -123,12 +131,11 @@ class Bench:
             cells, sshape = None, None
         if sel['k'] == 'all':
             return Operand(name, v, kind, base, base, sel, cells, sshape, whole=True)
-        arg = selector_arg(sel, base)
         try:
-            real = base[arg]
+            real = slice_of(base, sel)
         except Exception as exc:        # selector rejected by the library
             if cells is not None:
-                raise HarnessError(f"selector {sel!r} -> {arg!r} rejected by library: {exc!r}")
+                raise HarnessError(f"selector {sel!r} rejected by library: {exc!r}")
             return None
         if cells is None:
             raise HarnessError(f"selector {sel!r} accepted by library but refused by model")
@@ -144,10 +151,15 @@ class Bench:
         except Exception as e:          # noqa
             return (type(e).__name__, e)
 
-    def judge(self, status, out, key, crash_prop='C03', known=None):
+    def judge(self, status, out, key, crash_prop='C03', known=None, also=None):
         kind = out[0]
         nv = len(self.violations)
         self._judge(status, out, key, crash_prop)
+        if also is not None:
+            # C11 states its own refusal clause (target above current concentration / below current quantity)
+            for v in list(self.violations[nv:]):
+                if v.clause == 'infeasible_accepted':
+                    self.V(also, 'target_not_refused', key, v.detail)
         if known is not None:
             for v in self.violations[nv:]:
                 v.known = known
@@ -831,7 +843,7 @@ class Bench:
         self.sig.add(('fill_to',) + key[1:] + (status, out[0] if out[0] in ('ok', 'ValueError') else 'other',
                                                W.msubs[solvent].kind))
         if not (known and known.get('skip_judge')):
-            self.judge(status, out, key, crash_prop='C11')
+            self.judge(status, out, key, crash_prop='C11', also='C11')
         if out[0] != 'ok':
             if status == 'must_refuse':
                 self.stats['probe:refused_infeasible'] += 1
@@ -935,7 +947,7 @@ class Bench:
         self.sig.add(('dilute', num, den, W.msubs[solvent].kind, len(pre.contents), solvent in pre.contents,
                       status, out[0] if out[0] in ('ok', 'ValueError') else 'other'))
         if not (known and known.get('skip_judge')):
-            self.judge(status, out, key, crash_prop='C11')
+            self.judge(status, out, key, crash_prop='C11', also='C11')
         if out[0] != 'ok':
             if status == 'must_refuse':
                 self.stats['probe:refused_infeasible'] += 1
